@@ -312,6 +312,33 @@ def gen_exact(rng):
             ("exactly" if off == 0 else "just below" if off > 0 else "just above"), "exact:" + variant], nodes, float(flat)
 
 
+def gen_revisit(rng):
+    """A tool path that comes back to a node it has already visited (an equal node - same handles and
+    point, tuples or lists - and sometimes the very same object) and leaves it on a curved piece."""
+    scale = rng.choice((1.0, 10.0, 100.0))
+    mk = tuple if rng.random() < 0.6 else list
+
+    def corner(p):
+        return [mk(p), mk(p), mk(p)]
+
+    def rnd():
+        return (round(rng.uniform(-1, 1) * scale, 2), round(rng.uniform(-1, 1) * scale, 2))
+    a = rnd()
+    nodes = [corner(a)]
+    for _ in range(rng.randint(1, 3)):
+        b = rnd()
+        nodes.append(corner(b) if rng.random() < 0.7 else [mk(rnd()), mk(b), mk(rnd())])
+    # back at `a`: an equal copy of the first corner (or the same object), then a bent piece
+    back = corner(a) if rng.random() < 0.8 else nodes[0]
+    nodes.append(back)
+    far = rnd()
+    nodes.append([mk((far[0] + scale * rng.uniform(0.5, 2), far[1] - scale * rng.uniform(0.5, 2))), mk(far), mk(far)])
+    if rng.random() < 0.5:
+        nodes.append(corner(rnd()))
+    flat = scale * rng.choice((0.003, 0.01, 0.03, 0.1))
+    return ["path revisits a node equal to an earlier node"], nodes, flat
+
+
 def gen_deep(rng):
     """One arch whose first sub-piece needs more than 16 successive halvings."""
     span = rng.choice((8192.0, 4096.0, 1000.0, 3.0))
@@ -383,6 +410,11 @@ def run(ctx):
         mon.mode = "exact"
         one_case(ctx, mon, nodes, flat)
         mon.mode = None
+    for _ in range(ctx.budget(600, 6000)):
+        classes, nodes, flat = gen_revisit(rng)
+        ctx.case(classes, (tuple(tuple(tuple(pt) for pt in node) for node in nodes), flat))
+        ctx.sample({"nodes": [[list(pt) for pt in node] for node in nodes], "flat": flat}, tag=classes[0], per_tag=1)
+        one_case(ctx, mon, nodes, flat)
     # a flat piece, then its -1/-2 twin that is NOT flat at the same flatness (separate calls and
     # as consecutive pieces of one path); ints and floats
     for _ in range(ctx.budget(300, 3000)):
@@ -424,7 +456,8 @@ def run(ctx):
                 "repeated node (fully degenerate piece)", "random control points",
                 "history: subdividing an already subdivided path again",
                 "history: the -1/-2 twin of the previous path, same flatness",
-                "history: a flat piece and its -1/-2 twin at the same flatness", "nodes=1", "nodes=2", "nodes=3..12",
+                "history: a flat piece and its -1/-2 twin at the same flatness",
+                "path revisits a node equal to an earlier node", "nodes=1", "nodes=2", "nodes=3..12",
                 "flat/scale=1e-5..1e-4", "flat/scale=1e-4..1e-3", "flat/scale=1e-3..1e-2",
                 "flat/scale=1e-2..1e-1", "flat/scale=1e-1..1e0",
                 "outcome:piece subdivided", "outcome:piece left whole"):
